@@ -15,14 +15,32 @@ from .. import zoo
 _MODELS = {}
 
 
-def model_with(src, seed):
-    key = (src, seed)
+def model_with(src, seed, noise="diag"):
+    key = (src, seed, noise)
     if key not in _MODELS:
-        kind = "logistic_diag_src1" if src else "logistic_diag_nosrc"
+        if noise == "diag":
+            kind = "logistic_diag_src1" if src else "logistic_diag_nosrc"
+        else:
+            kind = "logistic_scalar_src1" if src else "logistic_scalar_nosrc"
         with warnings.catch_warnings():
             warnings.simplefilter("ignore")
-            m, data, _ = zoo.make(kind, n_ind=8, seed=1)
+            if kind == "logistic_scalar_nosrc":
+                from leaspy.models import LogisticModel
+                from leaspy.models.obs_models import observation_model_factory
+                m = LogisticModel("logistic", dimension=2, source_dimension=0, obs_models=observation_model_factory("gaussian-scalar"))
+                data = zoo.to_data(zoo.cohort(n_ind=8, seed=1, dim=2))
+            else:
+                m, data, _ = zoo.make(kind, n_ind=8, seed=1)
             m.fit(data, "mcmc_saem", n_iter=20, seed=seed, progress_bar=False)
+            if noise != "diag":
+                # the model as a user gets it back from a file (the scalar noise level then has shape (1,))
+                import os
+                import tempfile
+                from leaspy.models import BaseModel
+                f = os.path.join(tempfile.mkdtemp(), "m.json")
+                m.save(f)
+                m = BaseModel.load(f)
+                os.remove(f)
         _MODELS[key] = m
     return _MODELS[key]
 
@@ -81,7 +99,7 @@ def run_design(d, rnd, seed, watchdog=10):
     rec.update(outcome="?", individuals_exact=False, ages_increasing_unique=False, ages_rounded=False, values_in_unit_interval=False,
                one_param_set_each=False, nothing_generated=False, error="")
     feats, vp = concrete(d, rnd)
-    model = model_with(int(d["src"]), 3)
+    model = model_with(int(d["src"]), 3, str(d.get("noise", "diag")))
     np_state = np.random.get_state()[1].tobytes()
     old = signal.signal(signal.SIGALRM, _alarm)
     signal.alarm(watchdog)
